@@ -127,6 +127,42 @@ func c08GenOpt(r *RNG, id string, allowComma bool) *Case {
 		}
 		ts = append(ts, seqFromPool(r, ref, pool, r.Range(0, 5), r.PickInt([]int{0, 0, 0, 1, 2, 3})))
 	}
+	// a pair exactly AT the pairwise ambiguity threshold: the query differs from the reference at D sites and the target is
+	// uncalled at exactly num/den of them, with a threshold written as that decimal (0.7, 0.9, 0.35, 0.02 ... whose nearest
+	// float32 lies below the decimal, and 0.6, 0.3, 0.2 whose nearest float32 lies above): "greater than" must say no
+	thrOverride := -1
+	if w >= 10 && r.Chance(1, 5) {
+		ratios := [][3]int{{7, 10, 70}, {9, 10, 90}, {3, 5, 60}, {3, 10, 30}, {1, 5, 20}, {2, 5, 40}, {1, 10, 10}}
+		if w >= 20 {
+			ratios = append(ratios, [3]int{7, 20, 35}, [3]int{1, 20, 5}, [3]int{3, 20, 15})
+		}
+		if w >= 50 {
+			ratios = append(ratios, [3]int{1, 50, 2})
+		}
+		rt := ratios[r.Intn(len(ratios))]
+		perm := make([]int, w)
+		for i := range perm {
+			perm[i] = i
+		}
+		for i := w - 1; i > 0; i-- {
+			j := r.Intn(i + 1)
+			perm[i], perm[j] = perm[j], perm[i]
+		}
+		q := []byte(ref)
+		t := []byte(ref)
+		for k := 0; k < rt[1]; k++ {
+			p := perm[k]
+			q[p] = r.Pick(strings.ReplaceAll(symACGT, string(ref[p]), ""))
+			if k < rt[0] {
+				t[p] = 'N'
+			}
+		}
+		qs[0] = string(q)
+		ts = append(ts, string(t))
+		nt++
+		thrOverride = rt[2]
+		c.Tag("pair-exactly-at-threshold")
+	}
 	c.Set("ref", ref)
 	c.Set("qnames", strings.Join(randNamesCSV(r, nq, "Q", allowComma), ",")).Set("qseqs", strings.Join(qs, ","))
 	tn := randNamesCSV(r, nt, "T", allowComma)
@@ -180,7 +216,10 @@ func c08GenOpt(r *RNG, id string, allowComma bool) *Case {
 		c.SetInt(k, o[k])
 	}
 	c.SetBool("nofill", r.Chance(1, 3))
-	thr := r.PickInt([]int{10, 10, 0, 25, 50, 100})
+	thr := r.PickInt([]int{10, 10, 0, 25, 50, 100, 70, 35})
+	if thrOverride >= 0 {
+		thr = thrOverride
+	}
 	c.SetInt("thrn", thr).SetInt("thrd", 100)
 	c.SetInt("threshtarg", r.PickInt([]int{10000, 10000, 0, 2, 5}))
 	var ign []string
